@@ -1294,6 +1294,24 @@ func seqInts(n int) []int {
 	return out
 }
 
+// Reencode returns the parts of another valid serialisation of b: the canonical protobuf bytes followed by an unknown
+// field (number 15, varint 1), which every decoder skips. Same block, same hash, other part-set header.
+func reencode(b *types.Block) *types.PartSet { return Reencode(b) }
+
+// Reencode: see reencode (exported for regression tests).
+func Reencode(b *types.Block) *types.PartSet {
+	pb, err := b.ToProto()
+	if err != nil {
+		return nil
+	}
+	bz, err := pb.Marshal()
+	if err != nil {
+		return nil
+	}
+	bz = append(bz, 0x78, 0x01)
+	return types.NewPartSetFromData(bz, types.BlockPartSizeBytes)
+}
+
 // staleBlock returns a block of the previous height: the one node `like` stored, or another one proposed there.
 func (w *world) staleBlock(like *Node, h int64) *blockInfo {
 	if h-1 < w.net.Cfg.InitialHeight {
@@ -1319,7 +1337,7 @@ func (w *world) structuredByzProposal(h int64, r int32, pk int, pat pattern) {
 	if like == nil {
 		return
 	}
-	strat := rapid.SampledFrom([]string{"none", "new", "new", "new", "new", "reuse", "two", "two", "invalid", "stale", "forged-lastcommit"}).Draw(w.t, "bprop.strat")
+	strat := rapid.SampledFrom([]string{"none", "new", "new", "new", "new", "reuse", "two", "two", "invalid", "stale", "forged-lastcommit", "two-encodings"}).Draw(w.t, "bprop.strat")
 	if h > w.net.Cfg.InitialHeight && rapid.IntRange(0, 3).Draw(w.t, "bprop.flc") == 0 {
 		strat = "forged-lastcommit" // only possible above the first height: give it its share there
 	}
@@ -1368,6 +1386,28 @@ func (w *world) structuredByzProposal(h int64, r int32, pk int, pat pattern) {
 		if bi := mk(0, true); bi != nil {
 			w.net.InjectProposal(pk, h, r, pol, bi.block, bi.parts, nil, true)
 			w.stats.byzProposals++
+		}
+	case "two-encodings":
+		// ONE block in two serialisations (same block hash, different part-set header): the canonical bytes for one
+		// group, the same bytes followed by an unknown protobuf field for the others
+		if a := mk(0, false); a != nil {
+			if ps2 := reencode(a.block); ps2 != nil {
+				if group == nil {
+					group = w.drawGroup("bprop.g")
+					rest = map[int]bool{}
+					for _, c := range w.net.Order {
+						if !group[c] {
+							rest[c] = true
+						}
+					}
+				}
+				w.net.InjectProposal(pk, h, r, pol, a.block, a.parts, group, true)
+				w.net.InjectProposal(pk, h, r, pol, a.block, ps2, rest, true)
+				w.note(h, blockInfo{types.BlockID{Hash: a.block.Hash(), PartSetHeader: ps2.Header()}, a.block, ps2})
+				w.stats.byzProposals += 2
+				w.stats.equivocations++
+				lib.Class(w.opt.Test, "proposal-in-two-encodings")
+			}
 		}
 	case "forged-lastcommit":
 		if c := w.forgedLastCommit(like, h); c != nil {
